@@ -521,6 +521,35 @@ func (c *Ctx) c08Enforcer(pm *pairModel) {
 		if fc, ok := rm.Call.Args[len(rm.Call.Args)-1].(*ssa.Call); ok && eng.CalleeName(fc.Common()) == "(*container/list.List).Front" {
 			name = cons + ":sub:eviction"
 		}
+		// an eviction releases the bytes of the message it evicted: the size subtracted is computed
+		// from the element taken off the list (its Value, or what Remove returned), not from the
+		// message that is arriving
+		if okSub && strings.HasSuffix(name, ":sub:eviction") {
+			for _, sb := range subs {
+				if sb.Parent() != rm.Parent() || !eng.Dominates(rm, sb) {
+					continue
+				}
+				fromEvicted := eng.BackSlice(sb.Y, func(v ssa.Value) bool {
+					if v == ssa.Value(rm) {
+						return true
+					}
+					if f := eng.LoadedField(v); f != nil && f.Name() == "Value" && f.Pkg() != nil && f.Pkg().Path() == "container/list" {
+						return true
+					}
+					return false
+				})
+				if !fromEvicted {
+					okSub = false
+					r.Bad("C08/ENFORCER/shape", name+":of-the-evicted", p.InstrPos(sb), "the bytes subtracted for an eviction are not the evicted message's: the size does not come from the element taken off the list, so with messages of different sizes the account says less (the store holds more than its limit) or more (later deliveries evict mail that fits) than is stored")
+				}
+			}
+			if okSub {
+				r.Ok("C08/ENFORCER/shape", name+":of-the-evicted", p.InstrPos(rm), "the size subtracted is that of the element taken off the list")
+			}
+			if !okSub {
+				continue
+			}
+		}
 		if okSub {
 			r.Ok("C08/ENFORCER/shape", name, p.InstrPos(rm), "list removal is paired with curSize -= Size() on the path where the removal was effective")
 		} else {
